@@ -25,6 +25,7 @@ type ParsedSender struct {
 	Stage   string
 	FrameSizes []int
 	BadTag  bool
+	Trailing int
 }
 
 // ParseServerSenderStream decodes what a server-side sender wrote.
@@ -180,3 +181,120 @@ func ParseClientReceiverStream(wire []byte, daemon, negotiate, dryRun bool) (*Pa
 type discard struct{}
 
 func (discard) Write(p []byte) (int, error) { return len(p), nil }
+
+// SenderStreamOpts describes how a sender's byte stream is framed.
+type SenderStreamOpts struct {
+	ClientLines bool // daemon client preamble: greeting, module, argument lines, empty line
+	ServerLines bool // daemon server preamble: lines up to "@RSYNCD: OK"
+	Negotiate   bool // a 4-byte protocol version precedes
+	Seed        bool // a 4-byte seed precedes the multiplexed part (server side)
+	Mux         bool // stream is multiplexed after the seed
+	FilterFirst bool // a filter list precedes the file list (client sender with --delete)
+	DryRun      bool
+	Stats       bool // three statistics values follow the second phase marker
+}
+
+// ParseSenderStream decodes the byte stream written by the sending side of a
+// session (any role), as far as it goes.
+func ParseSenderStream(wire []byte, so SenderStreamOpts, o ListOpts) (*ParsedSender, error) {
+	w := NewWire(bytes.NewReader(wire), discard{})
+	ps := &ParsedSender{Stage: "handshake"}
+	if so.ServerLines {
+		for {
+			l, err := w.GetLine()
+			if err != nil {
+				return ps, err
+			}
+			l = strings.TrimRight(l, "\n")
+			ps.Lines = append(ps.Lines, l)
+			if l == "@RSYNCD: OK" {
+				break
+			}
+			if strings.HasPrefix(l, "@ERROR") || l == "@RSYNCD: EXIT" {
+				ps.Stage = "refused"
+				return ps, nil
+			}
+		}
+	}
+	if so.ClientLines {
+		for i := 0; ; i++ {
+			l, err := w.GetLine()
+			if err != nil {
+				return ps, err
+			}
+			l = strings.TrimRight(l, "\n")
+			ps.Lines = append(ps.Lines, l)
+			if i >= 2 && l == "" {
+				break
+			}
+		}
+	}
+	if so.Negotiate {
+		if _, err := w.GetInt32(); err != nil {
+			return ps, err
+		}
+	}
+	var err error
+	if so.Seed {
+		ps.Stage = "seed"
+		if ps.Seed, err = w.GetInt32(); err != nil {
+			return ps, err
+		}
+	}
+	if so.Mux {
+		d := w.EnableDemux()
+		d.OnFrame = func(tag, n int) {
+			if len(ps.FrameSizes) < 1<<20 {
+				ps.FrameSizes = append(ps.FrameSizes, n)
+			}
+		}
+		defer func() { ps.Frames, ps.Infos, ps.ErrMsg, ps.BadTag = d.Frames, d.Infos, d.ErrMsg, d.BadTag }()
+	}
+	if so.FilterFirst {
+		ps.Stage = "filters"
+		if _, err = w.ReadFilterList(); err != nil {
+			return ps, err
+		}
+	}
+	ps.Stage = "flist"
+	if ps.List, err = w.ReadFileList(o); err != nil {
+		return ps, err
+	}
+	ps.Sorted = ps.List.Sorted()
+	ps.Stage = "transfer"
+	phase := 0
+	for phase < 2 {
+		if so.DryRun {
+			v, err := w.GetInt32()
+			if err != nil {
+				return ps, err
+			}
+			if v == -1 {
+				phase++
+			} else {
+				ps.Echoes = append(ps.Echoes, v)
+			}
+			continue
+		}
+		rp, err := w.ReadReply(0)
+		if err != nil {
+			return ps, err
+		}
+		if rp.Idx == -1 {
+			phase++
+			continue
+		}
+		ps.Replies = append(ps.Replies, rp)
+	}
+	if so.Stats {
+		ps.Stage = "stats"
+		a, b, c, err := w.ReadStats()
+		if err != nil {
+			return ps, err
+		}
+		ps.Stats = [3]int64{a, b, c}
+	}
+	ps.Stage = "done"
+	ps.Trailing = w.R.Buffered()
+	return ps, nil
+}
